@@ -108,6 +108,9 @@ class Job:
         self.build_ok = None
         self.keep_raw = False
         self.raw = []
+        self.died = False
+        self.done = False
+        self.stderr = ""
 
     def key(self):
         cc, flags = CONFIGS[self.config]
